@@ -36,6 +36,16 @@ E_LOGITS = np.log(np.asarray([[0.9, 0.1], [0.35, 0.65]]))  # emission rows (x ->
 Q_INIT = np.log(np.asarray([[0.6, 0.4], [0.25, 0.75]]))  # custom proposal q(x | y)
 Q_EXT = np.log(np.asarray([[[0.5, 0.5], [0.3, 0.7]], [[0.8, 0.2], [0.1, 0.9]]]))  # q(x | y, prev)
 PREV0 = 0
+# a variant with a hard constraint: state 0 never emits symbol 1 (whole collections can die)
+with np.errstate(divide="ignore"):
+    E_SPARSE = np.log(np.asarray([[1.0, 0.0], [0.35, 0.65]]))
+_E_DENSE = E_LOGITS
+
+
+def _use_tables(sparse):
+    """Select the emission table used by the model, the reference and the stage oracle."""
+    global E_LOGITS
+    E_LOGITS = E_SPARSE if sparse else _E_DENSE
 
 
 def _model(nested=False):
@@ -114,7 +124,7 @@ def p_ref(obs):
     return tot, tot1
 
 
-PIPELINES = ("init", "init_q", "init_extend", "init_extend_q", "init_extend_q_nested", "init_extend_nested", "init_resample_cat_extend", "init_resample_sys_extend", "init_rejuv_extend_resample", "rsmc", "rsmc_mh", "rsmc_q")
+PIPELINES = ("init_resample_cat_extend_sparse", "init_resample_sys_extend_sparse", "init_extend_sparse", "init", "init_q", "init_extend", "init_extend_q", "init_extend_q_nested", "init_extend_nested", "init_resample_cat_extend", "init_resample_sys_extend", "init_rejuv_extend_resample", "rsmc", "rsmc_mh", "rsmc_q")
 
 
 def _pipeline(name, N, T):
@@ -124,6 +134,9 @@ def _pipeline(name, N, T):
     from genjax import const, sel
     from genjax.inference import init, extend, resample, rejuvenate, rejuvenation_smc, mh
 
+    sparse = name.endswith("_sparse")
+    name = name[: -len("_sparse")] if sparse else name
+    _use_tables(sparse)
     nested = name.endswith("_nested")
     step, init_prop, ext_prop = _model(nested)
     prev0 = jnp.asarray(PREV0, jnp.int32)
@@ -175,6 +188,9 @@ STAGES = {
     "init_extend_q_nested": ["init_q", "extend_q"],
     "init_extend_nested": ["init", "extend"],
     "init_resample_cat_extend": ["init", "resample", "extend"],
+    "init_resample_cat_extend_sparse": ["init", "resample", "extend"],
+    "init_resample_sys_extend_sparse": ["init", "resample", "extend"],
+    "init_extend_sparse": ["init", "extend"],
     "init_resample_sys_extend": ["init", "resample", "extend"],
     "init_rejuv_extend_resample": ["init", "rejuvenate", "extend", "resample"],
 }
@@ -270,6 +286,7 @@ def work(item, tier, seed):
     res = H.Result()
     name, N, T, obs = item
     obs = tuple(obs)
+    _use_tables(name.endswith("_sparse"))
     key = jax.random.key(seed * 179424673 + 41)
     det0 = {"pipeline": name, "N": N, "obs": list(obs)}
     try:
@@ -293,6 +310,11 @@ def work(item, tier, seed):
             return tree.INTERVAL
         if ev.name != "Categorical":
             raise tree.HarnessError(f"unexpected sampler {ev.name}")
+        lg = np.asarray(gfi.lane_params(ev, lane)[0], np.float64)
+        if not np.any(np.isfinite(lg)):
+            # every particle is dead (all weights -inf): the ancestor law is undefined, the estimate is
+            # 0 whatever is drawn -- one representative branch of probability 1
+            return [(np.int32(0), 1.0, "dead collection")]
         return gfi.std_menu(ev, lane, ctx)
 
     nstage = len(STAGES[name]) if name in STAGES else len(obs)
@@ -312,12 +334,15 @@ def work(item, tier, seed):
                 if kind in ("init", "init_q", "extend", "extend_q"):
                     tcount += 1
                 _check_stage(res, kind, P, prevP, obs[tcount], tcount, N, det)
-                z = np.exp(float(np.asarray(P.log_marginal_likelihood(), np.float64)))
-                if not H.close(np.log(max(z, 1e-300)), _lml(P), rtol=1e-4, atol=1e-4):
+                rep = float(np.asarray(P.log_marginal_likelihood(), np.float64))
+                z = 0.0 if (np.isnan(rep) or np.isneginf(rep)) and np.isneginf(_lml(P)) else np.exp(rep)
+                if np.isfinite(_lml(P)) and not H.close(rep, _lml(P), rtol=1e-4, atol=1e-4):
                     res.violate(PROP, f"log_marginal_likelihood-formula:{name}:{kind}", reported=np.log(max(z, 1e-300)), reference=_lml(P), **det)
                 acc[si] += leaf.prob * z
                 est = float(np.asarray(P.estimate(lambda c: ((c["sub"]["x"] if "sub" in c else c["x"]) == 1).astype(jnp.float32))))
-                acc1[si] += leaf.prob * z * est
+                # (a dead collection has Zhat = 0: the unnormalised estimate Zhat * estimate is 0, the
+                # self-normalised estimate itself is undefined there)
+                acc1[si] += 0.0 if z == 0.0 else leaf.prob * z * est
                 prevP = P
         else:
             allP = outs[0]
